@@ -1,14 +1,56 @@
-"""Contracts on the pinned `crypto-common` crate (src/lib.rs): trait InnerIvInit with its default slice-based constructor
-(C13: an IV slice of the wrong length is rejected with an error).  The array-based `inner_iv_init` is implemented by
-every mode of /repo (contracts in the crate units)."""
+"""Contracts on the pinned `crypto-common` crate (src/lib.rs): the constructor traits.  `trait InnerIvInit` / `InnerInit`
+with the default slice-based constructor (C13: an IV slice of the wrong length is rejected with an error), `trait
+KeyIvInit` with its slice-based default, and the blanket `impl<T> KeyIvInit for T where T: InnerIvInit, T::Inner:
+KeyInit` (C14: constructing a mode from key bytes IS constructing it from the keyed cipher).  What a constructor
+returns is stated through the spec members `iv_init_post` / `init_post`, which every impl in /repo defines as its own
+ensures clauses (vf/extract.py init_post_member).  `KeyInit` (the cipher's constructor) stays an assumed shim."""
 from vf.extract import FnC, Sel, Mod
+
+P13 = ('C13',)
+P14 = ('C14',)
+
+
+SLICES = [
+    ('ok_iff_lengths', P13, 'r is Ok <==> key@.len() == <Self as KeySizeUser>::KeySize::USIZE && iv@.len() == <Self as IvSizeUser>::IvSize::USIZE'),
+    ('as_array_new', P14, 'r is Ok ==> exists |k: Key<Self>, a: Iv<Self>| #![trigger k@, a@] k@ == key@ && a@ == iv@ && Self::kiv_post(k, a, r->Ok_0)'),
+]
 
 
 def mods():
     return [Mod('dep_common', 'dep:crypto-common/src/lib.rs', items=[
         Sel('struct InvalidLength'),
-        Sel('trait InnerIvInit', fns={
-            'inner_iv_slice_init': FnC(ret='r', props=('C13',), ensures=[
-                ('ok_iff_iv_length', ('C13',), 'r is Ok <==> iv@.len() == <Self as IvSizeUser>::IvSize::USIZE')]),
+        Sel('trait InnerIvInit', members='''
+    // r is a result of inner_iv_init(inner, &iv)
+    spec fn iv_init_post(inner: Self::Inner, iv: Iv<Self>, r: Self) -> bool;
+''', fns={
+            'inner_iv_init': FnC(ret='r', props=P14, ensures=[('post', P14, 'Self::iv_init_post(inner, *iv, r)')]),
+            'inner_iv_slice_init': FnC(ret='r', props=P13 + P14, ensures=[
+                ('ok_iff_iv_length', P13, 'r is Ok <==> iv@.len() == <Self as IvSizeUser>::IvSize::USIZE'),
+                ('as_array_init', P14, 'r is Ok ==> exists |a: Iv<Self>| a@ == iv@ && Self::iv_init_post(inner, a, r->Ok_0)')],
+                stmts={'1': 'proof { assert(iv@ == old_iv__@); }'} if False else {}),
         }, drop_fns=['generate_iv', 'generate_iv_with_rng', 'try_generate_iv_with_rng']),
+        Sel('trait InnerInit', members='''
+    spec fn init_post(inner: Self::Inner, r: Self) -> bool;
+''', fns={'inner_init': FnC(ret='r', props=P14, ensures=[('post', P14, 'Self::init_post(inner, r)')])}),
+        Sel('trait KeyIvInit', members='''
+    // r is a result of new(&key, &iv)
+    spec fn kiv_post(key: Key<Self>, iv: Iv<Self>, r: Self) -> bool;
+''', fns={
+            'new': FnC(ret='r', props=P14, ensures=[('post', P14, 'Self::kiv_post(*key, *iv, r)')]),
+            'new_from_slices': FnC(ret='r', props=P13 + P14, ensures=SLICES),
+        }, drop_fns=['generate_key', 'generate_key_with_rng', 'try_generate_key_with_rng', 'generate_iv', 'generate_iv_with_rng',
+                     'try_generate_iv_with_rng', 'generate_key_iv', 'generate_key_iv_with_rng', 'try_generate_key_iv_with_rng']),
+        Sel('impl KeySizeUser for T'),
+        Sel('impl KeyIvInit for T', members='''
+    // C14: a mode constructed from key bytes is the mode constructed from the cipher keyed with those bytes
+    open spec fn kiv_post(key: Key<Self>, iv: Iv<Self>, r: Self) -> bool {
+        exists |inner: T::Inner| #[trigger] T::Inner::key_init_post(key, inner) && T::iv_init_post(inner, iv, r)
+    }
+''', fns={
+            'new': FnC(props=P14, inherits=True),
+            'new_from_slices': FnC(props=P13 + P14, inherits=True, closures={0: '''-> (rc: Result<T, InvalidLength>)
+                ensures rc is Ok <==> iv@.len() == <T as IvSizeUser>::IvSize::USIZE,
+                    rc is Ok ==> exists |a: Iv<T>| a@ == iv@ && T::iv_init_post(i, a, rc->Ok_0)'''}),
+            'weak_key_test': FnC(props=P14, inherits=True),
+        }),
     ], export=True)]
